@@ -10,22 +10,28 @@ CONSTANTS MaxCtx, MaxLen,
 
 VARIABLES bind,        \* BI -> {"orig", "checked", "ml"}
           ctx,         \* stack of [saved |-> binding of pickle.load when the manager was constructed]
+          adds,        \* the closures installed by the last activation carry additions
           G,           \* set of ghost states admitted so far (HooksProp)
           bad,         \* "" or the clause the design violates
           hist
-vars == <<bind, ctx, G, bad, hist>>
+vars == <<bind, ctx, adds, G, bad, hist>>
 
 Orig == [i \in BI |-> "orig"]
 Blocks(b) == [i \in BI |-> b[i] # "orig"]
 IsOrig(b) == [i \in BI |-> b[i] = "orig"]
 
-Init == bind = Orig /\ ctx = <<>> /\ G = {Ghost0} /\ bad = "" /\ hist = <<>>
+Init == bind = Orig /\ ctx = <<>> /\ adds = FALSE /\ G = {Ghost0} /\ bad = "" /\ hist = <<>>
 
 Observe(op, b2) ==
-  \* design: the checked loader ends with pickle.loads(...), so the ML-only probe is refused through pickle.load
-  \* iff pickle.load or (when it is the checked loader) pickle.loads is the ML loader
-  LET mlb == [i \in BI |-> b2[i] = "ml" \/ (i = 1 /\ b2[1] = "checked" /\ b2[2] = "ml")]
-      G2 == UNION {Succ(x, op, Blocks(b2), IsOrig(b2), mlb) : x \in G} IN
+  LET adds2 == IF op = "activate_add" THEN TRUE ELSE IF op \in {"activate", "remove"} THEN FALSE ELSE adds
+      \* design: the checked loader ends with pickle.loads(...), so the ML-only probe is refused through pickle.load
+      \* iff pickle.load or (when it is the checked loader) pickle.loads is the ML loader
+      mlb == [i \in BI |-> b2[i] = "ml" \/ (i = 1 /\ b2[1] = "checked" /\ b2[2] = "ml")]
+      \* design: the additions probe is refused exactly by an ML loader built without additions
+      addb == [i \in BI |-> mlb[i] /\ ~adds2]
+      G2 == UNION {Succ(x, op, Blocks(b2), IsOrig(b2), mlb, addb) : x \in G}
+  IN
+  /\ adds' = adds2
   /\ bind' = b2 /\ G' = G2 /\ hist' = Append(hist, op)
   /\ bad' = IF G2 = {} THEN Clause(op) ELSE ""
 
@@ -50,6 +56,6 @@ Spec == Init /\ [][Next]_vars
 
 DesignOK == bad = ""
 TypeOK == bind \in [BI -> {"orig", "checked", "ml"}] /\ \A x \in G : Len(x.open) = Len(ctx)
-View == <<bind, ctx, G, bad>>       \* design check without the history variable
+View == <<bind, ctx, adds, G, bad>>       \* design check without the history variable
 Emit == (Len(hist) = MaxLen) => PrintT(<<"HIST", ToJson(hist)>>)
 =============================================================================
